@@ -28,7 +28,7 @@ func TestVF_MDelay(t *testing.T) {
 		mn := time.Duration(vfInt(inp, "min", 0)) * time.Millisecond
 		mx := time.Duration(vfInt(inp, "max", 0)) * time.Millisecond
 		i := vfInt(inp, "i", 0)
-		var waits []any
+		waits := []any{} // (never null in the trace, also when the first call panics)
 		panicked := false
 		func() {
 			defer func() {
